@@ -38,7 +38,9 @@ func main() {
 
 	memLen, boltLen := 5, 4
 	if r.Thorough() {
-		memLen, boltLen = 7, 5
+		// (length 7 in memory was the bound before nil values and iterate-and-delete joined the alphabet; with 26
+		// operations it no longer fits any budget and starved the backends that come later in the loop)
+		memLen, boltLen = 6, 5
 	}
 	type bound struct {
 		Backend string
